@@ -19,7 +19,6 @@ package c14
 // (replaying reruns the statistical engine with the same parameters - it is not a deterministic schedule).
 
 import (
-	"context"
 	"fmt"
 	"runtime"
 	"strconv"
@@ -50,13 +49,14 @@ type StatParams struct {
 }
 
 type StatResult struct {
-	Rounds    int    `json:"rounds"`
-	Updates   int    `json:"updates"`
-	Reordered int    `json:"reordered"`
-	Lost      int    `json:"lost"`
-	StampTies int    `json:"stamp_ties"` // ViaAPI: POSTs of one label set whose stored UpdatedAt did not strictly increase
-	First     string `json:"first,omitempty"`
-	Millis    int64  `json:"millis"`
+	Rounds        int    `json:"rounds"`
+	Updates       int    `json:"updates"`
+	Reordered     int    `json:"reordered"`
+	Lost          int    `json:"lost"`
+	RefusedStored int    `json:"refused_but_stored"` // submissions that returned an error although the provider stored them
+	StampTies     int    `json:"stamp_ties"`         // ViaAPI: POSTs of one label set whose stored UpdatedAt did not strictly increase
+	First         string `json:"first,omitempty"`
+	Millis        int64  `json:"millis"`
 }
 
 const replayNote = "statistical engine: replay = rerun this engine with the same parameters (real goroutines, real time, GOMAXPROCS as is); a clean tree gives 0 reorders"
@@ -88,7 +88,7 @@ func pipelineRun(t *testing.T, p StatParams) StatResult {
 	if p.ViaAPI {
 		api = newAPI(t, rig.Alerts)
 	}
-	var stampTies atomic.Int64
+	var stampTies, refusedStored atomic.Int64
 	var firstTie atomic.Pointer[string]
 	res := StatResult{}
 	var puts atomic.Int64
@@ -117,20 +117,54 @@ func pipelineRun(t *testing.T, p StatParams) StatResult {
 							if resolve {
 								ends = u.Add(-time.Second)
 							}
+							// every 5th submission is made with an already-cancelled context, every 7th with a context cancelled
+							// during the call: what the provider stores must still reach the dispatcher
+							ckind := ""
+							if sq%5 == 0 {
+								ckind = "pre"
+							} else if sq%7 == 0 {
+								ckind = "mid"
+							}
+							ctx, cancel := submitCtx(ckind)
+							refused := false
 							if p.ViaAPI {
 								var e time.Time
 								if resolve {
 									e = time.Now()
 								}
-								if code := postAlert(api, lsets[li], int(sq), e); code != 200 {
-									t.Errorf("POST: status %d", code)
-									return
+								if code := postAlert(ctx, api, lsets[li], int(sq), e); code != 200 {
+									if ckind == "" {
+										t.Errorf("POST: status %d", code)
+										cancel()
+										return
+									}
+									refused = true
 								}
-								got, err := rig.Alerts.Get(lsets[li].Fingerprint())
-								if err != nil {
-									t.Errorf("Get after POST: %v", err)
-									return
+							} else {
+								al := mkAlert(lsets[li].Clone(), u, ends, int(sq))
+								if err := rig.Alerts.Put(ctx, al); err != nil {
+									if ckind == "" {
+										t.Errorf("Put: %v", err)
+										cancel()
+										return
+									}
+									refused = true
 								}
+							}
+							cancel()
+							got, err := rig.Alerts.Get(lsets[li].Fingerprint())
+							stored := err == nil && string(got.Annotations["v"]) == strconv.FormatInt(sq, 10)
+							if refused {
+								if stored { // all-or-nothing
+									refusedStored.Add(1)
+								} else {
+									continue
+								}
+							} else if !stored {
+								t.Errorf("submission %d accepted but not served by the provider", sq)
+								return
+							}
+							if p.ViaAPI {
 								if !stamp[li].IsZero() && !got.UpdatedAt.After(stamp[li]) {
 									stampTies.Add(1)
 									msg := fmt.Sprintf("round %d: two back-to-back POSTs of label set %d were stamped UpdatedAt %s and %s", round, li,
@@ -138,12 +172,6 @@ func pipelineRun(t *testing.T, p StatParams) StatResult {
 									firstTie.CompareAndSwap(nil, &msg)
 								}
 								stamp[li] = got.UpdatedAt
-							} else {
-								al := mkAlert(lsets[li].Clone(), u, ends, int(sq))
-								if err := rig.Alerts.Put(context.Background(), al); err != nil {
-									t.Errorf("Put: %v", err)
-									return
-								}
 							}
 							puts.Add(1)
 							want[li] = sq
@@ -154,12 +182,20 @@ func pipelineRun(t *testing.T, p StatParams) StatResult {
 		}
 		wg.Wait()
 		// quiescence: every published alert has been routed (processingDuration is observed at the end of routeAlert)
-		deadline := time.Now().Add(20 * time.Second)
-		for rig.Disp.VerifProcessedAlerts() < uint64(puts.Load()) {
-			if time.Now().After(deadline) {
-				// published but never processed: lost alerts (a defect, reported as update-lost), not a harness failure
-				res.Lost = int(puts.Load()) - int(rig.Disp.VerifProcessedAlerts())
-				res.First = fmt.Sprintf("round %d: %d alerts published, %d processed 20 s later", round, puts.Load(), rig.Disp.VerifProcessedAlerts())
+		lastN, lastT := rig.Disp.VerifProcessedAlerts(), time.Now()
+		for {
+			n := rig.Disp.VerifProcessedAlerts()
+			if n >= uint64(puts.Load()) {
+				break
+			}
+			if n != lastN {
+				lastN, lastT = n, time.Now()
+			}
+			if time.Since(lastT) > 3*time.Second {
+				// stored by the provider but never processed although the workers have been idle for 3 s: lost updates
+				// (a defect, reported as update-lost), not a harness failure
+				res.Lost = int(puts.Load()) - int(n)
+				res.First = fmt.Sprintf("round %d: the provider accepted %d updates, the dispatcher processed %d and made no progress for 3 s", round, puts.Load(), n)
 				res.Rounds, res.Updates, res.Millis = round+1, int(puts.Load()), time.Since(t0).Milliseconds()
 				return res
 			}
@@ -186,6 +222,7 @@ func pipelineRun(t *testing.T, p StatParams) StatResult {
 			}
 		}
 		res.StampTies = int(stampTies.Load())
+		res.RefusedStored = int(refusedStored.Load())
 		if res.Reordered > 0 || res.StampTies > 0 {
 			res.Rounds = round + 1
 			if m := firstTie.Load(); m != nil && res.First == "" {
